@@ -24,6 +24,15 @@ pub trait Expression: ToAny + Debug {
     fn get_copy(&self) -> Box<dyn Expression>;
 }
 
+/// Members and elements of a read-only value (e.g. "_event.name") are read-only too.
+fn inherit_readonly(member: &DataArc, parent: &DataArc) -> DataArc {
+    let mut member = member.clone();
+    if parent.is_readonly() {
+        member.set_readonly(true);
+    }
+    member
+}
+
 pub fn get_expression_as<T: 'static>(ec: &dyn Expression) -> Option<&T> {
     let va = ec.as_any();
     va.downcast_ref::<T>()
@@ -271,7 +280,7 @@ impl Expression for ExpressionIndex {
                     Data::Map(m) => match data_to_string(&index_data) {
                         Ok(key) => match m.get(&key) {
                             None => {
-                                if allow_undefined {
+                                if allow_undefined && !left_value.is_readonly() {
                                     let data_arc = create_data_arc(Data::None());
                                     m.insert(key, data_arc.clone());
                                     Ok(data_arc)
@@ -279,14 +288,14 @@ impl Expression for ExpressionIndex {
                                     Err(format!("Index '{}' not found", key))
                                 }
                             }
-                            Some(member) => Ok(member.clone()),
+                            Some(member) => Ok(inherit_readonly(member, &left_value)),
                         },
                         Err(err) => Err(err),
                     },
                     Data::Array(m) => match numeric_to_integer(&index_data) {
                         Some(index) => match m.get(index as usize) {
                             None => Err(format!("Index not found: {} (len={})", index, m.len())),
-                            Some(value) => Ok(value.clone()),
+                            Some(value) => Ok(inherit_readonly(value, &left_value)),
                         },
                         None => Err(format!("Illegal index type '{}'", index_data)),
                     },
@@ -338,14 +347,14 @@ impl Expression for ExpressionMemberAccess {
                     | Data::None() => Err(format!("Value '{}' has no members", data)),
                     Data::Map(m) => match m.get(&self.member_name) {
                         None => {
-                            if allow_undefined {
+                            if allow_undefined && !val.is_readonly() {
                                 m.insert(self.member_name.clone(), create_data_arc(Data::None()));
                                 Ok(m.get(&self.member_name).unwrap().clone())
                             } else {
                                 Err(format!("Member {} not found", self.member_name))
                             }
                         }
-                        Some(member) => Ok(member.clone()),
+                        Some(member) => Ok(inherit_readonly(member, &val)),
                     },
                     Data::Error(err) => Err(err.clone()),
                 }
@@ -462,6 +471,9 @@ impl Expression for ExpressionAssignUndefined {
             match left_result {
                 Err(err) => Err(err),
                 Ok(left_value) => {
+                    if left_value.is_readonly() {
+                        return Err(format!("Can't set read-only {left_value}"));
+                    }
                     // Same object ("a ?= a"): nothing to copy, locking both sides would block forever.
                     if !Arc::ptr_eq(&right_result.arc, &left_value.arc) {
                         right_result
